@@ -32,7 +32,7 @@ class SHACryptInfo:
 class SHA256CryptInfo(SHACryptInfo):
     _prefix = "$5$"
     REGEX = re.compile(
-        r"^\$5(\$rounds=(?P<rounds>\d+))?\$(?P<salt>[^$]{0,16})\$(?P<hash>.{43})$"
+        r"^\$5(\$rounds=(?P<rounds>[1-9][0-9]*))?\$(?P<salt>[^$]{0,16})\$(?P<hash>.{43})$"
     )
 
 
@@ -40,7 +40,7 @@ class SHA256CryptInfo(SHACryptInfo):
 class SHA512CryptInfo(SHACryptInfo):
     _prefix = "$6$"
     REGEX = re.compile(
-        r"^\$6(\$rounds=(?P<rounds>\d+))?\$(?P<salt>[^$]{0,16})\$(?P<hash>.{86})$"
+        r"^\$6(\$rounds=(?P<rounds>[1-9][0-9]*))?\$(?P<salt>[^$]{0,16})\$(?P<hash>.{86})$"
     )
 
 
